@@ -686,6 +686,22 @@ class Engine:
                     return self._project(t, proj[n + 1:], body, bb, idx, depth)
             return T('param', body.key, 1, 'env')
         t = self.local(body, bb, idx, l, depth)
+        if any(e['k'] == 'cindex' for e in proj):
+            # position 0 of a *slice* bound by a slice pattern (`let [first, ..] = xs else`) is the element `xs.first()` names; constant
+            # positions of a fixed-size array (`let [b0, b1, b2, b3] = x.to_le_bytes()`) stay numbers
+            ty = body.local_ty(l)
+            while ty.startswith('&'):
+                ty = ty[1:].lstrip()
+                if ty.startswith('mut '):
+                    ty = ty[4:]
+            is_slice = ty.startswith('[') and ty.endswith(']') and not re.search(r';\s*[\w:]+\]$', ty)
+            if is_slice:
+                proj2 = []
+                for n, e in enumerate(proj):
+                    if e['k'] == 'cindex' and all(x['k'] == 'deref' for x in proj[:n]):
+                        e = dict(e, of_slice=True)
+                    proj2.append(e)
+                proj = proj2
         return self._project(t, proj, body, bb, idx, depth)
 
     def _project(self, t, proj, body, bb, idx, depth):
@@ -708,9 +724,14 @@ class Engine:
             elif k == 'index':
                 t = mk_elemat(t, self.local(body, bb, idx, e['l'], depth + 1), lambda: self.len_equalities(body, bb))
             elif k == 'cindex':
-                t = mk_elemat(t, T('const', -e['off'] - 1 if e['from_end'] else e['off']))
+                # (position 0 bound by a slice pattern `[first, ..]` is the element `first()` names)
+                t = mk_elemat(t, T('const', -e['off'] - 1 if e['from_end'] else (e['off'] if e['off'] or not e.get('of_slice') else 'first')))
             elif k == 'subslice':
-                t = T('adapt', 'subslice', t, T('const', e['from']), T('const', e['to']))
+                if e.get('from_end') and e['to'] == 0:
+                    # `[_, rest @ ..]`: everything after the first `from` elements -- what `iter().skip(from)` walks
+                    t = T('adapt', 'skip', t, T('const', e['from'])) if e['from'] else t
+                else:
+                    t = T('adapt', 'subslice', t, T('const', e['from']), T('const', e['to']))
             else:
                 t = T(k, t)
             i += 1
@@ -993,6 +1014,10 @@ class Engine:
         if decl in ('std::option::Option::<T>::unwrap_or', 'std::result::Result::<T, E>::unwrap_or') and len(args) == 2:
             # the payload when present (wrappers are transparent), the default otherwise
             return mk_phi([args[0], args[1]])
+        if decl in ('std::option::Option::<T>::unwrap_or_default', 'std::result::Result::<T, E>::unwrap_or_default') and len(args) == 1 and node is not None:
+            g = node['func'].get('gargs', [])
+            if g and g[0] in ('u8', 'u16', 'u32', 'u64', 'u128', 'usize', 'i8', 'i16', 'i32', 'i64', 'i128', 'isize'):
+                return mk_phi([args[0], T('const', 0)])     # unwrap_or(0)
         if decl in ('std::option::Option::<T>::unwrap_or_else', 'std::result::Result::<T, E>::unwrap_or_else') and len(args) == 2:
             return mk_phi([args[0], self.apply(args[1], ())])
         if decl in TRANSPARENT and args:
@@ -1035,6 +1060,8 @@ class Engine:
             return T('enumerate', args[0])
         if decl == 'std::iter::once':
             return T('once', args[0])
+        if decl == 'std::iter::repeat_n' and len(args) == 2:
+            return T('repeatv', args[0], args[1])       # repeat(x).take(n)
         if decl in ('std::iter::repeat', 'std::iter::repeat_n'):
             return T('repeat', args[0])
         if decl == 'std::iter::Iterator::flatten':
@@ -1050,8 +1077,9 @@ class Engine:
                 f0 = src[2][0]
                 if f0.tag == 'fnitem':
                     # keep the construction site: two vectors built the same way are still two vectors
-                    return T('repeatv', T('call', f0[1], (), src[3]), args[1])
-                return T('repeatv', self.apply(f0, ()), args[1])
+                    return T('repeatv', T('call', f0[1], (), src[3]), args[1], 'each-call')
+                # (marked: every element is the result of its own call of the closure, unlike `repeat(x).take(n)` which clones one value)
+                return T('repeatv', self.apply(f0, ()), args[1], 'each-call')
             if src.tag == 'repeat':
                 return T('repeatv', src[1], args[1])
         if decl in ('digest::Update::chain', 'digest::Digest::chain_update') and len(args) == 2:
